@@ -34,6 +34,7 @@ class Recorder:
         self.errors = {}         # event seq -> error records the agent logged during that event
         self.exprs_for = {}      # (basename, line) -> expressions to evaluate on the reference frame at capture
         self.post_ns = {}        # event seq -> simulated clock when the agent's function returned
+        self.ts_index = {}       # event seq -> (thread, index into the thread's clock log of the trigger's timestamp)
 
     def install(self):
         shims.TRACE_SEAM.recorder = self
@@ -68,7 +69,7 @@ class Recorder:
             elif cb in ("counter", "gauge", "histogram", "summary"):
                 out.append(("metric", None, (plugin, cb) + tuple(payload)))
             elif cb == "create_span":
-                out.append(("span", payload[2], (plugin,) + tuple(payload)))
+                out.append(("span", payload[2], (plugin,) + tuple(payload) + (cseq,)))
             elif cb == "span_close":
                 out.append(("span_close", None, (plugin, payload)))
         if out:
@@ -109,6 +110,8 @@ class Recorder:
         if self.world is not None:
             self._marks[tname] = (seq, len(self.world.pushed), len(self.world.sink.calls),
                                   len(self.world.logs.records))
+            if me is not None:
+                self.ts_index[seq] = (tname, len(me.clock_log))
         if (event == "line" and (base, line) in self.want_lines) or \
                 (event == "call" and (base, func) in self.want_calls):
             self.capture(frame, event, arg, seq, tname, ser)
